@@ -27,6 +27,10 @@ def configs(tier, seed=0):
     for mat in ['2x2', '3x2']:
         for noise, prior in [('scalar', 'scalar'), ('vector', 'dense'), ('dense', 'vector')]:
             out.append({'key': 'direct/%s/noise-%s/prior-%s' % (mat, noise, prior), 'kind': 'direct', 'mat': mat, 'noise': noise, 'prior': prior})
+    # function-backed models (the closed form needs get_matrix()): callables that allocate their output and callables that return a view of their argument
+    for backing in ['funmat', 'funview-identity', 'funview-flip', 'funview-subsample']:
+        out.append({'key': 'map/%s/noise-scalar/prior-vector' % backing, 'kind': 'map', 'mat': '2x2', 'noise': 'scalar', 'prior': 'vector', 'backing': backing})
+    out.append({'key': 'direct/funview-flip/noise-scalar/prior-scalar', 'kind': 'direct', 'mat': '2x2', 'noise': 'scalar', 'prior': 'scalar', 'backing': 'funview-flip'})
     for form in ['prec', 'sqrtcov', 'sqrtprec']:
         out.append({'key': 'map-otherforms/noise-%s' % form, 'kind': 'forms', 'which': 'noise', 'form': form})
         out.append({'key': 'map-otherforms/prior-%s' % form, 'kind': 'forms', 'which': 'prior', 'form': form})
@@ -69,6 +73,13 @@ def cov_spec(c, kind, d, tag, concrete=False):
 def build(c, cfg, mat=None, noise=None, prior=None, geom=None):
     import cuqi
     A = MATS[mat or cfg['mat']]
+    backing = cfg.get('backing')
+    if backing == 'funview-identity':
+        A = np.eye(3)
+    elif backing == 'funview-flip':
+        A = np.eye(3)[::-1].copy()
+    elif backing == 'funview-subsample':
+        A = np.eye(4)[::2].copy()
     m, n = A.shape
     b = cm.boxed(c, c.reals('b', m), 8)
     x0 = cm.boxed(c, c.reals('x0', n), 8)
@@ -76,7 +87,23 @@ def build(c, cfg, mat=None, noise=None, prior=None, geom=None):
     anydense = 'dense' in (nk, pk)      # float matrices: keep the other spread concrete so that everything is linear in (b, x0)
     Ce, Pe = cov_spec(c, nk, m, 'ce', concrete=anydense)
     Cx, Px = cov_spec(c, pk, n, 'cx', concrete=anydense)
-    model = cuqi.model.LinearModel(A) if geom is None else cuqi.model.LinearModel(A, domain_geometry=geom, range_geometry=m)
+    if backing is None:
+        model = cuqi.model.LinearModel(A) if geom is None else cuqi.model.LinearModel(A, domain_geometry=geom, range_geometry=m)
+    elif backing == 'funmat':
+        model = cuqi.model.LinearModel(lambda v: mv(A, np.asarray(v)), lambda w: mv(A.T, np.asarray(w)), range_geometry=m, domain_geometry=n)
+    else:
+        def fw(v):
+            return v if backing == 'funview-identity' else (v[::-1] if backing == 'funview-flip' else v[::2])
+
+        def ad(w):
+            if backing == 'funview-identity':
+                return w
+            if backing == 'funview-flip':
+                return w[::-1]
+            z = np.zeros(n, dtype=np.asarray(w).dtype)
+            z[::2] = w
+            return z
+        model = cuqi.model.LinearModel(fw, ad, range_geometry=m, domain_geometry=n)
     x = cuqi.distribution.Gaussian(x0, cov=Cx, name='x', geometry=geom if geom is not None else n)
     y = cuqi.distribution.Gaussian(model(x), cov=Ce, name='y', geometry=m)
     BP = cuqi.problem.BayesianProblem(y, x).set_data(y=b)
